@@ -358,6 +358,8 @@ class ElectionProfile:
                 wd = -int(tok)          # flip sign
                 if wd <= 0:
                     break               # terminate on multiplier
+                if wd > self.nCand:
+                    raise ElectionProfileError('bad blt: bad withdrawn candidate ID -%d' % wd)
                 if wd in self.withdrawn:
                     raise ElectionProfileError('bad blt: duplicate withdrawn candidate')
                 self.withdrawn.add(wd) # withdrawn candidate
